@@ -65,6 +65,17 @@ def check_encode(ctx, brine, v, origin):
             brine.dump(v)
         except TypeError:
             ctx.count("refused_with_TypeError")
+            # a refusal must leave nothing behind: the very next encoding in this process is as exact as any other
+            probe = ("after-refusal", len(origin), (origin, None, -0.0))
+            try:
+                back = brine.load(brine.dump(probe))
+                if refcodec.fingerprint(back) != refcodec.fingerprint(probe):
+                    ctx.violation("C04/encoding-after-a-refusal-differs", "after dump() refused a value, the next dump() of a plain value decodes to something else",
+                                  dict(origin=origin, refused=repr(v)[:200], probe=repr(probe), back=repr(back)[:300]))
+                ctx.count("encodings_right_after_a_refusal")
+            except Exception as e:
+                ctx.violation("C04/encoding-after-a-refusal-raises/%s" % type(e).__name__, "after dump() refused a value, the next dump()/load() of a plain value raised",
+                              dict(origin=origin, refused=repr(v)[:200], error=repr(e)[:200]))
         except RecursionError:
             ctx.count("skipped_recursion")
         except Exception as e:
